@@ -79,6 +79,42 @@ Proof.
     + rewrite spec_after_snoc. apply spec_rel_skip; assumption.
 Qed.
 
+Lemma expected_from_spec_rel c ch p : forall pre1 pre2,
+  spec_rel ch (spec_after pre1) (spec_after pre2) ->
+  expected_from pre1 p c ch = expected_from pre2 p c ch.
+Proof.
+  induction p as [|o p IH]; intros pre1 pre2 H; [reflexivity|]. cbn [expected_from].
+  rewrite (IH (pre1 ++ [o]) (pre2 ++ [o])).
+  - f_equal. destruct o; try reflexivity. rewrite (spec_rel_subscribed ch pre1 pre2 c H). reflexivity.
+  - rewrite !spec_after_snoc. apply spec_rel_step. exact H.
+Qed.
+
+Lemma expected_from_app c ch p1 : forall pre0 p2,
+  expected_from pre0 (p1 ++ p2) c ch = expected_from pre0 p1 c ch ++ expected_from (pre0 ++ p1) p2 c ch.
+Proof.
+  induction p1 as [|x p1 IH]; intros pre0 p2.
+  - rewrite app_nil_r. reflexivity.
+  - cbn [app expected_from]. rewrite IH, <- !app_assoc. reflexivity.
+Qed.
+
+(* SUBSCRIBE of a channel the connection is already subscribed to — the same channel named twice in
+   one command (a a, a b a), or again in a later command — changes what nobody receives: every
+   delivery, to every connection, for every channel, is the same as without it *)
+Theorem resubscribe_no_effect pre c ch q c' ch' :
+  subscribed pre c ch = true ->
+  chan_msgs ch' (outq (run init (pre ++ Subscribe c ch :: q)) c') =
+  chan_msgs ch' (outq (run init (pre ++ q)) c').
+Proof.
+  intros Hs. rewrite !delivery_exact. unfold expected. rewrite !expected_from_app. f_equal.
+  cbn [expected_from app]. change (Subscribe c ch :: q) with ([Subscribe c ch] ++ q).
+  cbn [app]. cbn [expected_from]. cbn [app].
+  apply expected_from_spec_rel. rewrite spec_after_snoc.
+  unfold subscribed in Hs. apply andb_true_iff in Hs as [Hs _].
+  split; cbn [spec_step s_sub s_closed]; intros x; [|reflexivity].
+  destruct (N.eqb_spec x c) as [->|]; [|reflexivity].
+  destruct (bytes_eqb_spec ch' ch) as [->|]; [|reflexivity]. cbn. symmetry. exact Hs.
+Qed.
+
 (* who is subscribed to ch depends only on the operations on ch and on closes *)
 Theorem subscribed_projection pre c ch :
   subscribed pre c ch = subscribed (filter (relevant ch) pre) c ch.
